@@ -305,6 +305,10 @@ func c04ExploreScenario(name string, hist []c04Op) *explore.Scenario {
 	return sc
 }
 
+func c04RegistryField(f string) bool {
+	return strings.HasPrefix(f, "hSet.") || strings.HasPrefix(f, "hList.") || strings.HasPrefix(f, "hNode.")
+}
+
 // racing registration / removal from another goroutine
 func c04RaceScenario(kind string) *explore.Scenario {
 	sc := &explore.Scenario{
@@ -364,6 +368,9 @@ func c04RaceScenario(kind string) *explore.Scenario {
 		ev := o.Log("ev")
 		var fs []explore.Finding
 		for _, r := range o.Races {
+			if !c04RegistryField(r.Field) {
+				continue // statement mode also covers Conn; C04 is about the handler registry
+			}
 			fs = append(fs, explore.Finding{Oracle: "data-race-on-handler-set", Msg: "unordered conflicting accesses to the handler registry: " + r.String()})
 			break
 		}
@@ -488,6 +495,9 @@ func c04Race2Scenario(kind string) *explore.Scenario {
 		ev := o.Log("ev")
 		var fs []explore.Finding
 		for _, r := range o.Races {
+			if !c04RegistryField(r.Field) {
+				continue // statement mode also covers Conn; C04 is about the handler registry
+			}
 			fs = append(fs, explore.Finding{Oracle: "data-race-on-handler-set", Msg: "unordered conflicting accesses to the handler registry: " + r.String()})
 			break
 		}
